@@ -1224,6 +1224,16 @@ pub fn check_trees(w: &mut Wallet, cx: &Ctx, m: &Model) -> Result<Vec<String>, S
         })
         .collect();
         let wallet_pos = |n: &crate::universe::NoteInfo| recorded.get(&format!("{}|{}", txid_hex_le(&n.txid), n.output_index)).copied().flatten();
+        for n in &notes {
+            if let Some(rp) = wallet_pos(n) {
+                if rp != n.position {
+                    return Err(format!(
+                        "{p:?}: the wallet records tree position {rp} for its note (transaction mined at height {} on the current chain) but the note's commitment is at position {} there: the Merkle path the wallet builds for this note belongs to another leaf and cannot verify; scanned={:?}",
+                        n.height, n.position, m.scanned
+                    ));
+                }
+            }
+        }
         let npos: Vec<(u64, [u8; 32])> = notes.iter().map(|n| (wallet_pos(n).unwrap_or(n.position), n.cm)).collect();
         // with `witness_subset` on, roots are evaluated at the first two, the last two and two
         // evenly spread retained checkpoints (all of them when there are at most twelve; a root over a
